@@ -107,9 +107,10 @@ var varVals = []string{"GET", "POST", "http", "https", "a=1", "/a", ""}
 func canonDomain(d string) string { return strings.ToLower(d) }
 
 type rtGen struct {
-	r   *Rng
-	rid int // regex occurrence ids
-	did int // dsl occurrence ids
+	r       *Rng
+	rid     int  // regex occurrence ids
+	did     int  // dsl occurrence ids
+	keepIDs bool // do not restart the ids with every configuration (several configurations in one history)
 }
 
 func (g *rtGen) headers(n int, http bool) []hmT {
@@ -206,7 +207,9 @@ func (g *rtGen) route(cluster string) rtT {
 // config: mostly accepted (distinct canonical domains), sometimes a duplicate or an odd domain, rarely a bad route
 func (g *rtGen) config() cfgT {
 	r := g.r
-	g.rid, g.did = 0, 0
+	if !g.keepIDs {
+		g.rid, g.did = 0, 0
+	}
 	nvh := 2 + r.Intn(7)
 	if r.Pct(8) {
 		nvh = 1
